@@ -131,7 +131,7 @@ def c12_o2_specs(tier):
 
 
 def c12_extract_specs(tier):
-    return [KSpec("O03.4 extract any width", C12M + "c12_o5_unpack_any_range", "all min<max (width symbolic), all 9 stream bytes", "extract(width) returns the SPEC-bits of the first two values", timeout=1200)]
+    return [KSpec("O03.4 extract any width", C12M + "c12_o5_unpack_any_range", "all min<max (width symbolic), all 8 start phases, all 9 stream bytes", "extract(width) at bit phase p returns the SPEC-bits of the value (and of a second one when it fits)", timeout=1200)]
 
 
 def c12_o5_specs(tier):
